@@ -64,7 +64,62 @@ def sig_run(cases, seed):
 IDENT = re.compile(r"^[A-Za-z_][A-Za-z0-9_]*$")
 
 
+F_SMALL = '''
+m=mesh("interval"); V=space(m,"P",1); u,v=TrialFunction(V),TestFunction(V)
+objs=[u*v*dx]
+'''
+G_SMALL = '''
+m=mesh("interval"); V=space(m,"P",1); u,v=TrialFunction(V),TestFunction(V)
+objs=[inner(grad(u),grad(v))*dx]
+'''
+E_SMALL = '''
+m=mesh("interval"); V=space(m,"P",1); f=Coefficient(V)
+objs=[(f*f, np.array([[0.25],[0.5]]))]
+'''
+
+
+def real_path_names(v):
+    """the names the real compile_forms / compile_expressions use (default arguments, real cffi builds), for the
+    same request under different histories in one process, and against the name formula the checks model."""
+    import pickle
+    import shutil
+    import subprocess
+    import tempfile
+    seqs = {"F": [F_SMALL], "G,F": [G_SMALL, F_SMALL], "F,F": [F_SMALL, F_SMALL], "E": [E_SMALL], "G,E,F": [G_SMALL, E_SMALL, F_SMALL]}
+    procs = {}
+    tmp = tempfile.mkdtemp(prefix="vfjnr_")
+    try:
+        for k, seq in seqs.items():
+            inp, outp = os.path.join(tmp, f"{len(procs)}.in"), os.path.join(tmp, f"{len(procs)}.out")
+            pickle.dump({"sequence": seq}, open(inp, "wb"))
+            procs[k] = (subprocess.Popen([common.PY, os.path.join(common.HERE, "jitname_worker.py"), inp, outp], env=common.env_for_repo(), cwd=tmp,
+                                         stdout=subprocess.PIPE, stderr=subprocess.PIPE, text=True), outp)
+        res = {}
+        for k, (p, outp) in procs.items():
+            so, se = p.communicate(timeout=900)
+            res[k] = pickle.load(open(outp, "rb")) if os.path.exists(outp) else [{"error": "worker died: " + se[-200:]}]
+    finally:
+        shutil.rmtree(tmp, ignore_errors=True)
+    formula = {r["id"]: r for r in sig_run([{"id": "F", "code": F_SMALL}, {"id": "E", "code": E_SMALL}], 0)}
+    fname = lambda k, i: res[k][i].get("module", "ERR " + res[k][i].get("error", ""))   # noqa: E731
+    obs = {"F alone": fname("F", 0), "F after G": fname("G,F", 1), "F second request": fname("F,F", 1), "F after G and E": fname("G,E,F", 2),
+           "E alone": fname("E", 0), "E after G": fname("G,E,F", 1)}
+    want_f = formula["F"].get("module")
+    want_e = formula["E"].get("emodule")
+    n = 0
+    for k, name in obs.items():
+        want = want_f if k.startswith("F") else want_e
+        ok = name == want
+        n += 1
+        v.oblige(ok)
+        if not ok:
+            v.violation(f"real-path:{k}", f"the module name the real JIT entry point uses for request '{k}' is {name}, the name of the same request in a fresh process / by the name formula is {want}",
+                        {"request": k, "observed": name, "expected": want, "all": obs, "code_F": F_SMALL, "code_G": G_SMALL, "code_E": E_SMALL})
+    return {"real_jit_requests": n}
+
+
 def run(v, tier, seed, g):
+    real_stats = real_path_names(v)
     seeds = [0, 1, 4242] if tier == "quick" else [0, 1, 2, 3, 17, 4242, 99991, 123456789]
     hists = ["none", "objects", "compile_other"]
     # ---- stability across hash seeds and process histories ------------------------------------------
@@ -134,7 +189,7 @@ def run(v, tier, seed, g):
     cov = {"checker_cmd": f"./check C13 --tier {tier}",
            "trusted_base": ["Coq kernel", "SHA-1 collision-free on the explored pre-images", "UFL signatures renumbering-invariant and separating (ufl.Form.signature, compute_expression_signature)",
                             "tr_naming.py shape check of compute_signature", "Python str() of option/tag tuples separates their components"],
-           "evaluations": runs * len(BASE) + len(SEPARATE), "distinct_nontrivial": len(BASE) * len(seeds) * len(hists),
+           "real_jit_path": real_stats, "evaluations": runs * len(BASE) + len(SEPARATE), "distinct_nontrivial": len(BASE) * len(seeds) * len(hists),
            "rule": f"{len(BASE)} requests x hash seeds {seeds} x histories {hists}; {len(SEPARATE)} request pairs that must be kept apart",
            "axioms_under_property_theorems": g.get("axioms", [])}
     return v.finish("proof", cov, ["injectivity is proved for the encoding of the pre-image; the digest is assumed injective"])
